@@ -8,7 +8,7 @@ partial def loop (hin : IO.FS.Stream) (hout : IO.FS.Stream) : IO Unit := do
     hout.flush
     return ()
   let ws := Proto.words (line.trimAscii.toString)
-  match Proto.stepPure ws with
+  match ProtoAll.step ws with
   | some out => hout.putStrLn out
   | none => hout.putStrLn "bad-op"
   loop hin hout
